@@ -44,6 +44,17 @@ class SysGlobals:
         return d
 
 
+def _introspect(ev):
+    '''(kind, target key, tag) of a maintainer event when its action says so (a functools.partial carrying the request, as
+    on the pinned tree); None when it does not (a closure): the world then goes by what the event does.'''
+    a = ev.action
+    try:
+        req = a.keywords['request']
+        return (a.func.__name__, req.target.hkey, req.tag)
+    except Exception:
+        return None
+
+
 class HTarget(Maintainable):
     def __init__(self, w, name, table, nested=None):
         self.w = w
@@ -229,11 +240,19 @@ class MaintWorld(SysGlobals, CompWorld):
                 env._events.remove(ev)
                 ev.random_weight = -1.0
                 env._events.insert(0, ev)
-                kind = getattr(ev.action, 'func', ev.action).__name__
-                req = ev.action.keywords['request']
-                tname, tag = req.target.hkey, req.tag
+                intro = _introspect(ev)
+                if intro is not None:
+                    kind, tname, tag = intro
                 Environment.step(env)
                 now = env.now
+                if intro is None:
+                    # the event does not say which order it belongs to (e.g. a closure instead of a partial): go by what
+                    # it did -- the first start / end hook it called
+                    first = [x for x in self.tlog if x[0] in ('start', 'end')]
+                    if not first:
+                        raise Violation('hooks', 'a work-order event of the maintainer ran without starting or finishing an order')
+                    kind = '_start_work_order' if first[0][0] == 'start' else '_finish_work_order'
+                    tname, tag = first[0][1], first[0][2]
                 a = ref.find(tname, tag)
                 if a is None:
                     raise Violation('unknown_order', f'{kind} of ({tname},{tag}) which the reference does not have in progress')
@@ -302,9 +321,17 @@ class MaintWorld(SysGlobals, CompWorld):
             else:
                 want.append((canon.fnum(env.now), '_start_work_order', a[0], a[1]))
         real = []
+        opaque = False
         for e in env._events:
-            req = e.action.keywords['request']
-            real.append((canon.fnum(e.time), e.action.func.__name__, req.target.hkey, req.tag))
+            intro = _introspect(e)
+            if intro is None:
+                opaque = True
+                real.append((canon.fnum(e.time),))
+            else:
+                real.append((canon.fnum(e.time),) + intro)
+        if opaque:
+            real = [x[:1] for x in real]
+            want = [x[:1] for x in want]
         if sorted(real) != sorted(want):
             raise Violation('pending_orders', f'after {label}: scheduled starts/finishes {sorted(real)} vs reference {sorted(want)}')
         q = [(r.target.hkey, r.tag) for r in m._request_queue]
